@@ -659,6 +659,14 @@ func (c *Ctx) buildPreamble() string {
 			b.WriteString(fmt.Sprintf("(define-fun wrap1_%s%d ((x Int)) Int (ite (> x %s) (- x %s) (ite (< x %s) (+ x %s) x)))\n", sg, w, intLit(hi), m, intLit(lo), m))
 		}
 	}
+	{
+		var terms []string
+		for k := 0; k < 8; k++ {
+			p := pow2(k).String()
+			terms = append(terms, fmt.Sprintf("(* %s (mod (+ (div x %s) (div y %s)) 2))", p, p, p))
+		}
+		b.WriteString("(define-fun xor8_exact ((x Int) (y Int)) Int (+ " + strings.Join(terms, " ") + "))\n")
+	}
 	b.WriteString("(define-fun wf_slice ((s Slice) (a Int)) Bool (and (<= 0 (s.ref s)) (<= (s.ref s) a) (<= 0 (s.off s)) (<= 0 (s.len s)) (<= (s.len s) (s.cap s)) (<= (+ (s.off s) (s.cap s)) " + maxObj + ") (=> (= (s.ref s) 0) (= (s.cap s) 0))))\n")
 	// string literals
 	var lits []string
